@@ -91,7 +91,7 @@ UTF8_IN = "input = every valid-UTF-8 byte string of exactly N bytes (all 2^(8N) 
 H("c17_sanitize_4", "snippet", ["C17", "C01"], expect_s=30, functions=["de_snipped::sanitize_terminal_snippet_preserve_len", "de_snipped::is_terminal_snippet_clean"],
   claim="sanitised text has the same byte length, contains no C0 (except \\n,\\t), DEL or C1 control, is valid UTF-8, leaves harmless bytes untouched; the crate's cleanliness predicate equals the reference predicate",
   bound=UTF8_IN + ", N=4; unwind 7", mem_gb=16, assumes=[STD_STUBS, "String::from_utf8_lossy is replaced by assert!(false): only reachable if the sanitiser broke UTF-8"])
-H("c17_sanitize_6", "snippet", ["C17"], tier="thorough", expect_s=120, functions=["de_snipped::sanitize_terminal_snippet_preserve_len", "de_snipped::is_terminal_snippet_clean"],
+H("c17_sanitize_6", "snippet", ["C17"], tier="thorough", expect_s=600, mem_gb=30, weight=3, timeout=2400, functions=["de_snipped::sanitize_terminal_snippet_preserve_len", "de_snipped::is_terminal_snippet_clean"],
   claim="as c17_sanitize_4", bound=UTF8_IN + ", N=6; unwind 9", assumes=[STD_STUBS])
 H("c17_crop_line_4", "snippet", ["C17", "C01"], expect_s=60, functions=["de_snipped::crop_line_by_cols", "de_snipped::col_to_byte_offset_in_line"],
   claim="cropped line keeps at most right-left+1 characters plus two ellipses, stays valid UTF-8, and a byte offset of any character inside the window is rebased onto the same character",
@@ -138,7 +138,7 @@ for _n, _desc, _tier, _exp in (
         ("c06_wide_hex32_i64_pos", "i64 0x + 32 hex digits (magnitudes up to 2^128-1)", "thorough", 2400), ("c06_wide_hex32_i64_neg", "i64 -0x + 32 hex digits", "thorough", 2400),
         ("c06_wide_hex32_i128_pos", "i128 0x + 32 hex digits", "thorough", 600), ("c06_wide_hex32_i128_neg", "i128 -0x + 32 hex digits", "thorough", 600),
         ("c06_wide_hex33_u128", "u128 0x + 33 hex digits", "thorough", 600),
-        ("c06_wide_oct_i64_pos", "i64 0o + 21 octal digits", "thorough", 900), ("c06_wide_oct_u64", "u64 0o + 22 octal digits", "thorough", 900)):
+        ("c06_wide_oct_i64_pos", "i64 0o + 22 octal digits", "thorough", 900), ("c06_wide_oct_u64", "u64 0o + 22 octal digits", "thorough", 900)):
     H(_n, "parse_scalars", ["C06"], tier=_tier, expect_s=_exp, timeout=max(900, _exp * 4), functions=INT_FUNCS, claim=WIDE_CLAIM,
       bound="concrete skeleton, every digit symbolic in its radix class (hex: both cases), leading zeros included: " + _desc, assumes=[STD_STUBS])
 for _n, _desc in (("c06_hex32_top_i64_f", "i64 target, 0x XY ffff…f (30 f)"), ("c06_hex32_top_i64_neg_f", "i64 target, -0x XY ffff…f"),
